@@ -46,6 +46,9 @@ inductive Ev
   /-- the database folder marked CORRUPT by an ENCRYPT query = `DOp.folderSet` -/
   | folderExternal
   | nodeScanStart | nodeScanTick | nodePowerOn | nodePowerOff | nodePowerTick
+  /-- the node's reveal-to-red countdown (`Op.redScan`, `Node.redPhase`): modelled because it ticks in the block of the whole-node
+  scan; what it reveals is not health -/
+  | nodeRedScan
   /-- not a C14 observable: `revealed_to_red`, `red_scan_countdown` (red agent's view), `_scanned_this_step` (observation refresh flag) -/
   | outOfScope
 deriving DecidableEq, Repr
@@ -90,12 +93,12 @@ def modelWriters : List (W × Ev) := [
   (⟨"simulator/network/hardware/base.py", "Node.ConfigSchema", "shut_down_countdown", "default", "shut_down_countdown", "0", ""⟩, .construct),
   (⟨"simulator/network/hardware/base.py", "Node.ConfigSchema", "start_up_countdown", "default", "start_up_countdown", "0", ""⟩, .construct),
   (⟨"simulator/network/hardware/base.py", "Node.apply_timestep", "node_scan_countdown", "augSub", "self.node_scan_countdown", "1", "self.operating_state == NodeOperatingState.ON && self.node_scan_countdown > 0"⟩, .nodeScanTick),
-  (⟨"simulator/network/hardware/base.py", "Node.apply_timestep", "red_scan_countdown", "augSub", "self.red_scan_countdown", "1", "self.operating_state == NodeOperatingState.ON && self.red_scan_countdown > 0"⟩, .outOfScope),
+  (⟨"simulator/network/hardware/base.py", "Node.apply_timestep", "red_scan_countdown", "augSub", "self.red_scan_countdown", "1", "self.operating_state == NodeOperatingState.ON && self.red_scan_countdown > 0"⟩, .nodeRedScan),
   (⟨"simulator/network/hardware/base.py", "Node.apply_timestep", "shut_down_countdown", "augSub", "self.config.shut_down_countdown", "1", "self.config.shut_down_countdown > 0"⟩, .nodePowerTick),
   (⟨"simulator/network/hardware/base.py", "Node.apply_timestep", "start_up_countdown", "augSub", "self.config.start_up_countdown", "1", "self.config.start_up_countdown > 0"⟩, .nodePowerTick),
   (⟨"simulator/network/hardware/base.py", "Node.power_off", "shut_down_countdown", "assign", "self.config.shut_down_countdown", "self.config.shut_down_duration", "not (self.config.shut_down_duration <= 0) && self.operating_state == NodeOperatingState.ON"⟩, .nodePowerOff),
   (⟨"simulator/network/hardware/base.py", "Node.power_on", "start_up_countdown", "assign", "self.config.start_up_countdown", "self.config.start_up_duration", "not (self.config.start_up_duration <= 0) && self.operating_state == NodeOperatingState.OFF"⟩, .nodePowerOn),
-  (⟨"simulator/network/hardware/base.py", "Node.reveal_to_red", "red_scan_countdown", "assign", "self.red_scan_countdown", "self.config.node_scan_duration", ""⟩, .outOfScope),
+  (⟨"simulator/network/hardware/base.py", "Node.reveal_to_red", "red_scan_countdown", "assign", "self.red_scan_countdown", "self.config.node_scan_duration", ""⟩, .nodeRedScan),
   (⟨"simulator/network/hardware/base.py", "Node.scan", "node_scan_countdown", "assign", "self.node_scan_countdown", "max(self.config.node_scan_duration, 1)", ""⟩, .nodeScanStart),
   (⟨"simulator/system/applications/application.py", "Application", "install_countdown", "default", "install_countdown", "None", ""⟩, .construct),
   (⟨"simulator/system/applications/application.py", "Application.apply_timestep", "health_state_actual", "assign", "self.health_state_actual", "SoftwareHealthState.GOOD", "self.operating_state is ApplicationOperatingState.INSTALLING && self.install_countdown <= 0"⟩, .appInstallTick),
@@ -247,7 +250,7 @@ def Ev.item : Ev → Item
   | .fileScan | .fileCorrupt | .fileRepair | .fileRestore | .fileCopy | .fileExternal | .dbReplace => .file
   | .folderScanStart | .folderScanTick | .folderInstantScan | .folderCorrupt | .folderRepair | .folderRestoreStart
   | .folderRestoreTick | .folderExternal => .folder
-  | .nodeScanStart | .nodeScanTick | .nodePowerOn | .nodePowerOff | .nodePowerTick => .node
+  | .nodeScanStart | .nodeScanTick | .nodePowerOn | .nodePowerOff | .nodePowerTick | .nodeRedScan => .node
   | .construct | .outOfScope => .other
 
 /-- the events the TABLE lists for code field `fld` of an item of kind `it` (class-level defaults and constructors aside) -/
